@@ -415,15 +415,26 @@ pub struct StepOut {
     pub err: String,
     /// extra histogram classes (protocol level: per-message results, triage findings)
     pub notes: Vec<String>,
+    /// a per-commitment point carried by a reply differs from the channel's point for the
+    /// number the reply is about (judged by the C18 check, counted elsewhere)
+    pub point_mismatch: Option<String>,
 }
 
 impl StepOut {
     pub fn new() -> StepOut {
-        StepOut { tag: "skip", disclosed: vec![], signed: None, accepted_invalid_sig: false, kind: "", req: "", err: String::new(), notes: vec![] }
+        StepOut { tag: "skip", disclosed: vec![], signed: None, accepted_invalid_sig: false, kind: "", req: "", err: String::new(), notes: vec![], point_mismatch: None }
     }
 }
 
 impl Machine {
+    /// a reply carried `p` as the per-commitment point of number `n`
+    fn check_point(&self, so: &mut StepOut, what: &str, n: u64, p: &PublicKey) {
+        let want = self.w.chans[self.ci].holder_point(&self.w.secp, n);
+        if *p != want && so.point_mismatch.is_none() {
+            so.point_mismatch = Some(format!("{}: the reply carries {} as per-commitment point {} but the channel's point {} is {}", what, p, n, n, want));
+        }
+    }
+
     /// One request (or one sub-request of a macro op), followed by the crash-and-restart that a
     /// fired storage fault entails.
     pub fn step(&mut self, i: usize, op: &Op) -> StepOut {
@@ -494,7 +505,8 @@ impl Machine {
                 if res.is_panic() {
                     self.dead = true;
                 }
-                if let Out::Ok((_point, secret)) = res {
+                if let Out::Ok((point, secret)) = res {
+                    self.check_point(&mut so, "revoke", n + 1, &point);
                     if let Some(s) = secret {
                         so.disclosed = self.note_secrets(i, &[s.secret_bytes()]);
                     }
@@ -516,6 +528,9 @@ impl Machine {
                 if res.is_panic() {
                     self.dead = true;
                 }
+                if let Out::Ok(p) = &res {
+                    self.check_point(&mut so, "activate", 1, p);
+                }
                 if res.is_ok() {
                     if let Some((pn, pc)) = self.g.pending.take() {
                         if pn == 0 {
@@ -529,6 +544,9 @@ impl Machine {
                 let Some(n) = self.num(next, *d) else { return so };
                 let res = self.w.with_chan(self.ci, |ch| ch.get_per_commitment_point(n));
                 so.tag = res.tag();
+                if let Out::Ok(p) = &res {
+                    self.check_point(&mut so, "get_point", n, p);
+                }
             }
             Op::GetSecret { d } => {
                 so.kind = "get_secret";
